@@ -511,16 +511,16 @@ Print Assumptions no_internal_rdata_text.
    dictionary of keys or bare secrets).  For ANY keyed hash function H, any octet string, any
    keyring, request MAC (at most 65535 octets), running context, multi flag and clock: a message or a
    library error (FormError family, BadTime, BadSignature, BadKey, BadAlgorithm, the Peer* errors,
-   UnknownTSIGKey, NeedAbsoluteNameOrOrigin for a relative key name; eUnsupported = GSS-TSIG / UPDATE,
-   outside the model) - never struct.error, AssertionError, ValueError or NotImplementedError.
+   UnknownTSIGKey, NeedAbsoluteNameOrOrigin for a relative key name, the dns.name errors of
+   relativizing an owner name against `origin`; eUnsupported = GSS-TSIG / UPDATE, outside the model) - never struct.error, AssertionError, ValueError or NotImplementedError.
    (The first version of this proof left exactly one case open - NotImplementedError out of
    _maybe_start_digest for a later envelope of a multi-message exchange - which was reproduced on
    the library and repaired as /repo ed7f7ab; C14's model mirrors the repair.) *)
 Theorem no_internal_signed_message :
-  forall (H : TsigM.hashid -> TsigM.bytes -> TsigM.bytes -> TsigM.bytes) (w : TsigM.bytes)
+  forall (H : TsigM.hashid -> TsigM.bytes -> TsigM.bytes -> TsigM.bytes) (origin : option name) (w : TsigM.bytes)
          (kr : TsigM.keyring) (request_mac : TsigM.bytes) (ctx : option TsigM.hctx) (multi : bool) (now : Z),
   bytes_ok w -> zlen request_mac <= 65535 ->
-  match TsigM.read H w kr request_mac ctx multi now with
+  match TsigM.read_gen H origin w kr request_mac ctx multi now with
   | Ok _ => True
   | Lib e => UntrustedTsig.tlib e
   | Internal _ => False
